@@ -65,7 +65,7 @@ class _Property(Generic[PropType]):
             self.parent = parent
         if not name:
             return
-        if not self.source:
+        if self.source is None:
             self.source = name
         self.name = name
 
